@@ -1255,6 +1255,7 @@ fn families(ctx: &Ctx, sink: Sink) {
             sink(scenario_item("readonly", ""));
             sink(scenario_item("sysvar-data", ""));
             sink(scenario_item("event-copy-alias", ""));
+            sink(scenario_item("in-after-invoke", ""));
         }
         "C08" if ctx.has("--ecma") => {
             let o = Opts {
@@ -1778,6 +1779,68 @@ fn scenario_event_copy_alias(ctx: &Ctx, out: &mut WorkerOut, index: usize) {
         }
         run.finish();
     }
+}
+
+/// C09: In() in a session that has invoked a child still answers for its OWN configuration (the child has a
+/// state of the same name as one of the parent's, in a different position, and states the parent does not have).
+fn scenario_in_after_invoke(ctx: &Ctx, out: &mut WorkerOut, index: usize) {
+    let xml = format!(
+        r##"<scxml {ns} datamodel="rfsm-expression" name="par"><state id="p0"><onentry><script>mark('in', 'before', In('p0'), In('q'), In('k'))</script></onentry>
+<invoke id="kid"><content><scxml xmlns="http://www.w3.org/2005/07/scxml" version="1.0" datamodel="rfsm-expression" name="kid"><state id="q"><transition event="never" target="k"/></state><state id="k"/><state id="p0"/></scxml></content></invoke>
+<transition event="probe" cond="In('p0')"><script>mark('in', 'probe', In('p0'), In('q'), In('k'))</script></transition>
+<transition event="probe"><script>mark('in', 'guard-false', In('p0'), In('q'), In('k'))</script></transition>
+</state><state id="q"/></scxml>"##,
+        ns = XMLNS
+    );
+    let replay = json!({"engine":"e1","index": index, "xml": xml, "history": ["probe", "probe"]});
+    let mut run = match Run::start(&xml, std::time::Duration::from_secs(20)) {
+        Ok(r) => r,
+        Err(e) => {
+            out.violation(ctx, "scenario-start", "scenario-start", &format!("{:?}", e), replay);
+            return;
+        }
+    };
+    out.add("runs", 1);
+    let mut ok = run.wait_idle(1) == Wait::Idle;
+    for k in 0..2 {
+        if ok {
+            // the child is started at the end of the first macrostep; by the second probe it has long registered
+            std::thread::sleep(std::time::Duration::from_millis(if k == 0 { 0 } else { 300 }));
+            run.send_name("probe");
+            ok = run.wait_idle(2 + k) == Wait::Idle;
+            out.add("edges", 1);
+        }
+    }
+    if !ok {
+        out.violation(ctx, "session-stops-responding", "in-after-invoke:no-idle", &format!("{:?}", take_panics()), replay);
+        run.finish();
+        return;
+    }
+    let main_session = run.session.session_id;
+    let rb: Vec<Vec<String>> = run
+        .log
+        .snapshot()
+        .iter()
+        .filter_map(|(_, r)| match r {
+            Rec::Mark { args, session, .. } if *session == main_session && args.first().map(|a| a == "in").unwrap_or(false) => Some(args[1..].to_vec()),
+            _ => None,
+        })
+        .collect();
+    let t = |a: &str| vec![a.to_string(), "true".to_string(), "false".to_string(), "false".to_string()];
+    let want = vec![t("before"), t("probe"), t("probe")];
+    out.add("ref_comparisons", 1);
+    if rb != want {
+        out.violation(
+            ctx,
+            "in-predicate",
+            "in-after-invoke",
+            &format!("the parent is in p0 the whole time (never in q or k); In('p0'), In('q'), In('k') evaluated in the parent before and after it invoked a child (whose states are q, k, p0): {:?}, expected {:?}", rb, want),
+            replay,
+        );
+    } else {
+        out.outcomes.insert("in-after-invoke|own-configuration".into());
+    }
+    run.finish();
 }
 
 fn scenario_sysvar_data(ctx: &Ctx, out: &mut WorkerOut, index: usize, dm: &str) {
@@ -2322,6 +2385,7 @@ fn run_scenario(ctx: &Ctx, out: &mut WorkerOut, index: usize, name: &str, _label
     match name {
         "null-content" => scenario_null_content(ctx, out, index),
         "event-copy-alias" => scenario_event_copy_alias(ctx, out, index),
+        "in-after-invoke" => scenario_in_after_invoke(ctx, out, index),
         "foreach-sources" => scenario_foreach_sources(ctx, out, index, "rfsm-expression"),
         "foreach-sources@ecmascript" => scenario_foreach_sources(ctx, out, index, "ecmascript"),
         "event-fields" => scenario_event_fields(ctx, out, index, "rfsm-expression"),
